@@ -1,5 +1,6 @@
 import OvniModel.Generated.Consts
 import OvniModel.Emu.Basic
+import OvniModel.Version
 
 /-!
 # Metadata and model gates of the emulator, as decision logic (C12)
@@ -36,6 +37,9 @@ structure Meta where
   hasRequire : Bool
   /-- models (by model char) with a compatible requirement in `ovni.require` (parsing/compat: C14) -/
   requires : List Nat
+  /-- the string-valued entries of `ovni.require`: (model name, version string) as
+      `json_object_get_string(require, spec->name)` returns them -/
+  reqs : List (List Nat × List Nat) := []
   /-- `ovni.lib.version` and `ovni.lib.commit` are strings -/
   hasLib : Bool := true
   /-- `ovni.loom_cpus`: `none` = absent or not an array, else the `(index, phyid)` list -/
@@ -45,6 +49,8 @@ deriving Repr
 inductive Cls
   | json | version | part | loom | pid | appid | tid | finished | lib | cpus | require
   | unknownStream | modelUnregistered | modelDisabled | payload
+  /-- `model_version_probe` < 0: unparsable or incompatible model version in some thread -/
+  | reqVersion
 deriving DecidableEq, Repr
 
 /-- Per-stream checks up to `create_thread` (only for `part = "thread"`; any
@@ -76,6 +82,25 @@ def checkTrace (ms : List Meta) : Except Cls Unit :=
     else if ths.any (fun t => !t.hasLib) then .error .lib
     else if ths.any (fun t => !t.hasRequire) then .error .require
     else .ok ()
+
+/-- `ovni.require` of a thread as `model.c:should_enable` sees it. -/
+def Meta.require (m : Meta) : Ovni.Version.Require := if m.hasRequire then some m.reqs else none
+
+/-- Models (by char) that this thread requires with a parsable, compatible
+    version (`should_enable` = 1), computed by the version model of C14. -/
+def Meta.compatReqs (models : List (List Nat × List Nat × Nat)) (m : Meta) : List Nat :=
+  models.filterMap fun (name, ver, ch) =>
+    match Ovni.Version.parse (some ver) with
+    | none => none
+    | some h => if Ovni.Version.shouldEnable h (Ovni.Version.reqFor name m.require) = .enabled then some ch else none
+
+/-- `model_probe` at `emu_init`: the version probe of every registered model
+    runs over **all** threads; one unparsable or incompatible requirement (or a
+    missing `ovni.require` object) in any thread aborts the emulation. -/
+def versionGate (models : List (List Nat × List Nat × Nat)) (ths : List Meta) : Except Cls Unit :=
+  match Ovni.Version.enabledSet false (ths.map (·.require)) models with
+  | none => .error .reqVersion
+  | some _ => .ok ()
 
 /-- `model_event` gate: the model char must be registered and enabled.  The
     ovni model ('O' = 79) is always enabled (`model_ovni_probe` returns 1);
